@@ -85,7 +85,21 @@ func (v *VFile) Close() error {
 	step("close", v.path, "")
 	return v.f.Close()
 }
-func (v *VFile) Read(b []byte) (int, error) { return v.f.Read(b) }
+func (v *VFile) WriteString(s string) (int, error) {
+	step("write", v.path, "")
+	return v.f.WriteString(s)
+}
+func (v *VFile) Sync() error {
+	step("fsync", v.path, "")
+	return v.f.Sync()
+}
+func (v *VFile) Truncate(size int64) error {
+	step("truncate", v.path, "")
+	return v.f.Truncate(size)
+}
+func (v *VFile) Seek(offset int64, whence int) (int64, error) { return v.f.Seek(offset, whence) }
+func (v *VFile) Stat() (FileInfo, error)                      { return v.f.Stat() }
+func (v *VFile) Read(b []byte) (int, error)                   { return v.f.Read(b) }
 func (v *VFile) Name() string               { return v.f.Name() }
 
 func OpenFile(name string, flag int, perm FileMode) (*VFile, error) {
@@ -123,6 +137,10 @@ func Rename(oldpath, newpath string) error {
 func Remove(name string) error {
 	step("unlink", name, "")
 	return os.Remove(name)
+}
+
+func Create(name string) (*VFile, error) {
+	return OpenFile(name, os.O_RDWR|os.O_CREATE|os.O_TRUNC, 0666)
 }
 
 func Open(name string) (*os.File, error)            { return os.Open(name) }
